@@ -243,12 +243,28 @@ def gen_location(rng, n, tier="quick"):
                 base = datetime.datetime(yr, rng.randint(1, 12), rng.randint(1, 28), rng.randint(0, 23),
                                          rng.randint(0, 59), rng.randint(0, 59))
                 kind = rng.random()
-                if kind < 0.45:
+                if kind < 0.15 and shadow_tz != "UTC":
+                    # a naive reading inside a repeated hour of the location's zone, either fold:
+                    # PEP 495 says which instant it is
+                    import zones as _zones
+                    try:
+                        amb = _zones.ambiguous_wall(rng, _zones.iana(shadow_tz))
+                    except Exception:  # noqa: BLE001
+                        amb = None
+                    dt_in = (amb or base).replace(fold=rng.choice([0, 1]))
+                elif kind < 0.45:
                     dt_in = base
                 elif kind < 0.9:
                     dt_in = base.replace(tzinfo=zoneinfo.ZoneInfo(rng.choice(TZ_NAMES + OLD_TZ_NAMES)))
                 if dt_in is not None:
                     pos = [dt_in]
+            given_phase_dt = None
+            if m == "moon_phase" and d is not None and rng.random() < 0.45:
+                # the phase varies within the day: a datetime is handed on as it is
+                given_phase_dt = datetime.datetime(d.year, d.month, d.day, rng.randint(0, 23), rng.randint(0, 59))
+                if rng.random() < 0.4:
+                    given_phase_dt = given_phase_dt.replace(tzinfo=zoneinfo.ZoneInfo(rng.choice(TZ_NAMES)))
+                kwargs["date"] = given_phase_dt
             state = (shadow["latitude"], shadow["longitude"], shadow_tz, loc.solar_depression)
             with Recorder() as rec:
                 st, ret = call(getattr(loc, m), *pos, **kwargs)
@@ -300,6 +316,11 @@ def gen_location(rng, n, tier="quick"):
                 exp = "%s %s %s %s %s %s" % (head, dtk, dep_t, zt, di_t, el_t)
             if not ok_ret:
                 exp += " Xreturn-value-not-passed-through"
+            if given_phase_dt is not None:
+                got_d = args.get("date")
+                if not (type(got_d) is datetime.datetime and got_d == given_phase_dt
+                        and got_d.tzinfo is given_phase_dt.tzinfo):
+                    exp += " Xdatetime-not-handed-on:%r" % (got_d,)
             yield Case("Location." + m, req, exp, descr)
 
 
